@@ -945,6 +945,8 @@ def same_tensor(a, b):
         return ('type', 'results are %s and %s' % (type(a).__name__, type(b).__name__))
     if list(a.shape) != list(b.shape):
         return ('shape', 'shapes %s and %s' % (list(a.shape), list(b.shape)))
+    if a.dims != b.dims:
+        b = b.retag_units(a.dims) or b
     if a.cells.shape != b.cells.shape:
         return ('shape', 'dim typing differs')
     for idx in np.ndindex(*a.cells.shape):
